@@ -67,6 +67,12 @@ def head_buffers(tier, rng):
         for n in range(1, 1 + k): out.append(full[:n])
         full = bytes([ib]) + b'\xff' * k
         for n in range(1, 1 + k): out.append(full[:n])
+        # declared string lengths within a few bytes of 2^64 with some payload present: head + payload length is at / just below / beyond SIZE_MAX
+        if k == 8 and mt in (2, 3):
+            for d in range(0, 36):
+                for n in (1, 2, 3, 9, 17):
+                    if tier == 'thorough' or (d + n) % 3 == 0 or d in (9, 10, 11, 12) :
+                        out.append(bytes([ib]) + (2 ** 64 - 1 - d).to_bytes(8, 'big') + bytes(range(1, n + 1)))
     return out
 
 
